@@ -536,6 +536,42 @@ def cyMemory (cfg : Cfg) (codec : Nat → Bytes → Option Bytes) (wantCrc : Boo
     List BatchOut × End :=
   cyMemLoop cfg codec wantCrc b (b.length + 1) 0 []
 
+/-- the OTHER legitimate driver of `MemoryRecords`: `while (batch := records.next_batch()) is not None`
+    — no `has_next()` guard, so `_get_next`'s own "does the batch lie inside the buffer" test is the
+    only thing between a trailing partial batch and a slice that reaches past the buffer.
+    (Differs from `cyMemLoop` in the order of the tests: `length < 14` raises before the fit test.) -/
+def cyMemLoopN (cfg : Cfg) (codec : Nat → Bytes → Option Bytes) (wantCrc : Bool) (b : Bytes) :
+    Nat → Int → List BatchOut → List BatchOut × End
+  | 0, _, acc => (acc.reverse, .fault .fuel)
+  | fuel + 1, pos, acc =>
+    -- _get_next(): remaining < LOG_OVERHEAD -> None
+    if (b.length : Int) - pos < 12 then (acc.reverse, .done) else
+    match rdI32 b (pos + 8) with
+    | .exc e => (acc.reverse, .exc e)
+    | .fault f => (acc.reverse, .fault f)
+    | .ok length =>
+      if length < 14 then (acc.reverse, .exc .corrupt) else
+      match ss (pos + 12 + length) with
+      | .exc e => (acc.reverse, .exc e)
+      | .fault f => (acc.reverse, .fault f)
+      | .ok sliceEnd =>
+        -- slice_end > buffer_len -> None
+        if sliceEnd > (b.length : Int) then (acc.reverse, .done) else
+        match rdI8 b (if cfg.magicRel then pos + 16 else 16) with
+        | .exc e => (acc.reverse, .exc e)
+        | .fault f => (acc.reverse, .fault f)
+        | .ok magic =>
+          let slice := (b.drop pos.toNat).take (sliceEnd - pos).toNat
+          let out := if magic < 2 then cyLegacyBatch cfg codec wantCrc magic slice
+                     else cyDefaultBatch cfg codec wantCrc slice
+          match out.fin with
+          | .done => cyMemLoopN cfg codec wantCrc b fuel sliceEnd (out :: acc)
+          | e => ((out :: acc).reverse, e)
+
+def cyMemoryN (cfg : Cfg) (codec : Nat → Bytes → Option Bytes) (wantCrc : Bool) (b : Bytes) :
+    List BatchOut × End :=
+  cyMemLoopN cfg codec wantCrc b (b.length + 1) 0 []
+
 /-! ## Python primitives (memory-safe by construction: they raise, they never fault) -/
 
 /-- `buffer[i]` -/
@@ -819,16 +855,25 @@ def pyMemory (cfg : Cfg) (codec : Nat → Bytes → Option Bytes) (wantCrc : Boo
   | .fault f => ([], .fault f)
   | .ok (next, pos) => pyMemLoop cfg codec wantCrc b (b.length + 1) next pos []
 
+/-- `_MemoryRecordsPy` driven by `next_batch()` until it returns `None`: `has_next()` is
+    `self._next_slice is not None` and `next_batch()` starts with `if next_slice is None: return
+    None`, so both drivers are the same function of the buffer -/
+def pyMemoryN (cfg : Cfg) (codec : Nat → Bytes → Option Bytes) (wantCrc : Bool) (b : Bytes) :
+    List BatchOut × End :=
+  pyMemory cfg codec wantCrc b
+
 /-! ## the entry points of the property -/
 
 inductive Entry where
   | cyD                 -- `DefaultRecordBatch(buf)` of the C extension
   | cyL (magic : Int)    -- `LegacyRecordBatch(buf, magic)` of the C extension
-  | cyM                  -- `MemoryRecords(buf)` of the C extension, all batches
+  | cyM                  -- `MemoryRecords(buf)` of the C extension, all batches, `has_next()`-guarded
+  | cyN                  -- the same, `next_batch()` until it returns `None`
   | cyV (pos : Int)      -- `decode_varint_cython(buf, pos)`
   | pyD                 -- `_DefaultRecordBatchPy(buf)`
   | pyL (magic : Int)    -- `_LegacyRecordBatchPy(buf, magic)`
-  | pyM                  -- `_MemoryRecordsPy(buf)`, all batches
+  | pyM                  -- `_MemoryRecordsPy(buf)`, all batches, `has_next()`-guarded
+  | pyN                  -- the same, `next_batch()` until it returns `None`
   | pyV (pos : Int)      -- `decode_varint_py(buf, pos)`
 deriving DecidableEq, Repr
 
@@ -840,14 +885,16 @@ def Entry.ends (e : Entry) (cfg : Cfg) (codec : Nat → Bytes → Option Bytes) 
   | .cyD => [(cyDefaultBatch cfg codec wantCrc b).fin]
   | .cyL m => [(cyLegacyBatch cfg codec wantCrc m b).fin]
   | .cyM => (cyMemory cfg codec wantCrc b).2 :: (cyMemory cfg codec wantCrc b).1.map (·.fin)
+  | .cyN => (cyMemoryN cfg codec wantCrc b).2 :: (cyMemoryN cfg codec wantCrc b).1.map (·.fin)
   | .cyV pos => [(cyVarintPy cfg b pos).toEnd]
   | .pyD => [(pyDefaultBatch codec wantCrc b).fin]
   | .pyL m => [(pyLegacyBatch cfg codec wantCrc m b).fin]
   | .pyM => (pyMemory cfg codec wantCrc b).2 :: (pyMemory cfg codec wantCrc b).1.map (·.fin)
+  | .pyN => (pyMemoryN cfg codec wantCrc b).2 :: (pyMemoryN cfg codec wantCrc b).1.map (·.fin)
   | .pyV pos => [(pyVarint b pos).toEnd]
 
 def Entry.isPython : Entry → Bool
-  | .pyD | .pyL _ | .pyM | .pyV _ => true
+  | .pyD | .pyL _ | .pyM | .pyN | .pyV _ => true
   | _ => false
 
 /-- the stored checksum field of a v2 batch / of a v0/v1 message -/
